@@ -848,6 +848,10 @@ fn gen(seed: u64, n: usize, profile: &str) {
                     // a bare task that the legacy API can express too (fifth host)
                     g.allow_abortable = false;
                     g.next_handle = 0;
+                    // distinct operations: the legacy API starts spawned tasks at a different point of the run, so look-alike
+                    // requests in one batch would be addressed ambiguously (rank in the sorted batch)
+                    g.unique_ops = true;
+                    g.next_op = 0;
                     loop {
                         let is = g.instrs(7, 0);
                         if legacy_expressible(&is) {
